@@ -29,7 +29,8 @@ def resolves_from_receiver(fi, p):
     for n in own_nodes(fi.node):
         if isinstance(n, ast.If) and isinstance(n.test, ast.Compare) and len(n.test.ops) == 1 and \
                 isinstance(n.test.ops[0], ast.Is) and isinstance(n.test.left, ast.Name) and n.test.left.id == p and \
-                isinstance(n.test.comparators[0], ast.Constant) and n.test.comparators[0].value is None:
+                isinstance(n.test.comparators[0], ast.Constant) and n.test.comparators[0].value is None and \
+                getattr(n, '_parent', None) is fi.node:        # unconditional: a statement of the function body itself
             for st in n.body:
                 if isinstance(st, ast.Assign) and any(isinstance(t, ast.Name) and t.id == p for t in st.targets):
                     txt = ast.unparse(st.value)
@@ -58,6 +59,18 @@ def branch_context(node):
         child = p
         p = getattr(p, '_parent', None)
     return ''
+
+
+def arg_owner_with(te, index, fn, call, P):
+    """name X such that the call passes `X.<attr>` and X is (typed as) an element that carries its own P (X.P exists)"""
+    for a in list(call.args) + [k.value for k in call.keywords]:
+        if isinstance(a, ast.Attribute) and isinstance(a.value, ast.Name) and a.value.id not in ('self', 'cls'):
+            for t in te.type_of(a.value, fn):
+                if t.startswith('C:') and t[2:] in index.classes:
+                    k = index.classes[t[2:]]
+                    if k.find_property(P) is not None or (te.root_of(k), P) in te.iattr:
+                        return a.value.id
+    return None
 
 
 def value_in_scope(te, fn, names, self_attrs=True):
@@ -141,7 +154,12 @@ def check_forwarding(chk, c, rule, params, scope_names=None, exempt=None, only_c
                     names = (scope_names or {}).get(P, (P,))
                     sc = value_in_scope(te, s.fn, names, self_attrs)
                     if sc is None:
-                        continue
+                        # the call describes an element through one of its attributes (f(el.datatype)): that element's own P
+                        # is the context the callee needs
+                        owner = arg_owner_with(te, c.index, s.fn, s.node, P)
+                        if owner is None:
+                            continue
+                        sc = 'attribute of `%s`' % owner
                     key = (fq, s.lineno, s.label, t.func.qualname, P)
                     if key in seen:
                         continue
